@@ -6,6 +6,7 @@ import (
 	"errors"
 	"fmt"
 	"net"
+	"sort"
 	"strings"
 	"time"
 
@@ -317,6 +318,19 @@ func main() {
 			"cancellation, hang} x optional caller cancel x entry point {Primary, MediaOnly, CDN} x options {plain, Obfuscated, obfuscated-only addresses with a good / an unparsable secret}; every schedule with <= %d preemptions (3-address "+
 			"scenarios one less in quick) and at most 3 (thorough 6) non-default choices among the cost-free ones (thread order at blocking points); oracle at quiescence: exactly one of {connection, error}; with a connection exactly that one stays open and every "+
 			"other established connection was closed; with an error none stays open; without cancellation an error only if all dials failed and it includes each failure.", bound)
+		if c.Thorough() {
+			// the thorough tier is time-capped and scenarios start in list order: the cheap ones (fewer addresses, no cancel thread) first
+			sort.SliceStable(scs, func(i, j int) bool {
+				w := func(p params) int {
+					n := 2 * len(p.Dials)
+					if p.Cancel {
+						n++
+					}
+					return n
+				}
+				return w(scs[i]) < w(scs[j])
+			})
+		}
 		if c.Fork(len(scs), 16) {
 			return
 		}
